@@ -506,7 +506,9 @@ def ctxAssign (c : Ctx) (var : Bytes) (raw : Val) (kind : InsKind) : Ctx :=
 
 /-- `typeCtx`. -/
 def ctxNode (c : Ctx) (cs : CtxSpec) : Ctx × Option Err :=
-  if cs.srcStatic then (c.setBytes cs.var cs.src, none) else
+  -- literal source: the variable, then the ok-flag (repair: the fast path used to skip the flag)
+  if cs.srcStatic then
+    ((if cs.ok.isEmpty then c.setBytes cs.var cs.src else (c.setBytes cs.var cs.src).setStatic cs.ok (.bool (!cs.src.isEmpty))), none) else
   -- GetInspector(var, ins): "static" unless a var-inspector pair is registered; other names fail
   if !(cs.ins == lit "static" || cs.ins == lit "TestObject" || cs.ins == lit "TestHistory" || cs.ins == lit "strings") then
     (c, some .unknownInspector)
